@@ -6,6 +6,7 @@ import (
 	"path/filepath"
 	"strings"
 	"sync"
+	"sync/atomic"
 
 	"go.lsp.dev/protocol"
 	"go.lsp.dev/uri"
@@ -35,6 +36,7 @@ type Server struct {
 	supportsConfiguration bool
 	payeeTemplatesCache   sync.Map // map[protocol.DocumentURI]map[string][]analyzer.PostingTemplate
 	publishMu             sync.Mutex
+	docGen                atomic.Uint64 // bumped whenever the set or the text of open documents changes
 }
 
 func NewServer() *Server {
@@ -43,6 +45,7 @@ func NewServer() *Server {
 		loader:   include.NewLoader(),
 	}
 	defaults := defaultServerSettings()
+	srv.loader.SetOverlay(srv.openDocumentAt)
 	srv.cliClient = cli.NewClient(defaults.CLI.Path, defaults.CLI.Timeout)
 	srv.setSettings(defaults)
 	return srv
@@ -183,6 +186,7 @@ func (s *Server) Exit(ctx context.Context) error {
 
 func (s *Server) DidOpen(ctx context.Context, params *protocol.DidOpenTextDocumentParams) error {
 	s.documents.Store(params.TextDocument.URI, params.TextDocument.Text)
+	s.docGen.Add(1)
 	s.payeeTemplatesCache.Delete(params.TextDocument.URI)
 	go s.publishDiagnostics(ctx, params.TextDocument.URI, params.TextDocument.Text)
 	return nil
@@ -202,13 +206,14 @@ func (s *Server) DidChange(ctx context.Context, params *protocol.DidChangeTextDo
 			}
 		}
 		s.documents.Store(params.TextDocument.URI, content)
+		s.docGen.Add(1)
 		// templates were collected from the previous content
 		s.payeeTemplatesCache.Delete(params.TextDocument.URI)
-		if s.workspace != nil {
-			if path := uriToPath(params.TextDocument.URI); path != "" {
+		if path := uriToPath(params.TextDocument.URI); path != "" {
+			if s.workspace != nil {
 				s.workspace.UpdateFile(path, content)
-				s.loader.InvalidateFile(path)
 			}
+			s.loader.InvalidateFile(path)
 		}
 		go s.publishDiagnostics(ctx, params.TextDocument.URI, content)
 	}
@@ -222,6 +227,11 @@ func isFullChange(r protocol.Range) bool {
 
 func (s *Server) DidClose(ctx context.Context, params *protocol.DidCloseTextDocumentParams) error {
 	s.documents.Delete(params.TextDocument.URI)
+	s.docGen.Add(1)
+	if path := uriToPath(params.TextDocument.URI); path != "" {
+		// from now on the file on disk counts again
+		s.loader.InvalidateFile(path)
+	}
 	s.payeeTemplatesCache.Delete(params.TextDocument.URI)
 	tokenCache.delete(params.TextDocument.URI)
 	return nil
@@ -229,16 +239,17 @@ func (s *Server) DidClose(ctx context.Context, params *protocol.DidCloseTextDocu
 
 func (s *Server) DidSave(ctx context.Context, params *protocol.DidSaveTextDocumentParams) error {
 	s.payeeTemplatesCache.Delete(params.TextDocument.URI)
+	s.docGen.Add(1)
 
-	if s.workspace != nil {
-		if path := uriToPath(params.TextDocument.URI); path != "" {
+	if path := uriToPath(params.TextDocument.URI); path != "" {
+		if s.workspace != nil {
 			if content, ok := s.GetDocument(params.TextDocument.URI); ok {
 				s.workspace.UpdateFile(path, content)
 			} else if data, err := os.ReadFile(path); err == nil {
 				s.workspace.UpdateFile(path, string(data))
 			}
-			s.loader.InvalidateFile(path)
 		}
+		s.loader.InvalidateFile(path)
 	}
 	return nil
 }
@@ -263,8 +274,9 @@ func (s *Server) publishDiagnostics(ctx context.Context, docURI protocol.Documen
 	if path == "" {
 		return
 	}
+	gen := s.docGen.Load()
 	resolved, loadErrors := s.loader.LoadFromContent(path, content)
-	s.resolved.Store(docURI, &resolvedEntry{content: content, journal: resolved})
+	s.resolved.Store(docURI, &resolvedEntry{content: content, gen: gen, journal: resolved})
 
 	diagnostics := s.analyzeWithIncludes(content, resolved)
 
@@ -499,16 +511,34 @@ func uriToPath(docURI protocol.DocumentURI) string {
 
 // resolvedEntry is the include tree of a document together with the content
 // it was resolved from, so that a tree computed from a superseded version of
-// the document is never used to answer a request.
+// the document is never used to answer a request. Included files that are
+// open are read from their buffers, so the tree also depends on the other
+// open documents: gen is the value of docGen it was resolved under.
 type resolvedEntry struct {
 	content string
+	gen     uint64
 	journal *include.ResolvedJournal
+}
+
+// openDocumentAt gives the loader the buffer of an open document by path.
+func (s *Server) openDocumentAt(path string) (string, bool) {
+	var content string
+	found := false
+	s.documents.Range(func(key, value any) bool {
+		docURI, ok := key.(protocol.DocumentURI)
+		if !ok || uriToPath(docURI) != path {
+			return true
+		}
+		content, found = value.(string)
+		return false
+	})
+	return content, found
 }
 
 func (s *Server) GetResolved(docURI protocol.DocumentURI) *include.ResolvedJournal {
 	doc, open := s.GetDocument(docURI)
 	if r, ok := s.resolved.Load(docURI); ok {
-		if entry, ok := r.(*resolvedEntry); ok && (!open || entry.content == doc) {
+		if entry, ok := r.(*resolvedEntry); ok && (!open || (entry.content == doc && entry.gen == s.docGen.Load())) {
 			return entry.journal
 		}
 	}
@@ -519,8 +549,9 @@ func (s *Server) GetResolved(docURI protocol.DocumentURI) *include.ResolvedJourn
 	if path == "" {
 		return nil
 	}
+	gen := s.docGen.Load()
 	resolved, _ := s.loader.LoadFromContent(path, doc)
-	s.resolved.Store(docURI, &resolvedEntry{content: doc, journal: resolved})
+	s.resolved.Store(docURI, &resolvedEntry{content: doc, gen: gen, journal: resolved})
 	return resolved
 }
 
